@@ -36,6 +36,10 @@ type iterator struct {
 
 	closer io.Closer
 
+	// ssRef is true when the iterator holds a ref-count of its own on
+	// ss, released by Close().
+	ssRef bool
+
 	iteratorOptions IteratorOptions
 
 	// numCursorsInit is the number of segment/lower-level cursors that had
@@ -81,7 +85,22 @@ func (ss *segmentStack) StartIterator(
 		return nil, err
 	}
 
-	return iter.optimize()
+	rv, err := iter.optimize()
+	if err == nil && rv == Iterator(iter) {
+		// The iterator goes on using the stack and its lower-level
+		// snapshot (to resolve merge operations, to restart on a
+		// SeekTo()), so it holds its own ref-count on a ref-counted
+		// stack until it is closed: the application may Close() the
+		// snapshot before the iterators that it started on it.
+		ss.m.Lock()
+		if ss.refs > 0 {
+			ss.refs++
+			iter.ssRef = true
+		}
+		ss.m.Unlock()
+	}
+
+	return rv, err
 }
 
 // startIterator() returns a new iterator on the given segmentStack.
@@ -221,6 +240,11 @@ func (iter *iterator) Close() error {
 		iter.closer = nil
 	}
 
+	if iter.ssRef {
+		iter.ssRef = false
+		iter.ss.decRef()
+	}
+
 	return nil
 }
 
@@ -344,6 +368,7 @@ func (iter *iterator) SeekTo(seekToKey []byte) error {
 
 	iterOld := *iter // Clone current iterator before overwriting it.
 	iterOld.closer = nil
+	iterOld.ssRef = false
 
 	iter.cursors = iterNew.cursors
 	iter.lowerLevelIter = iterNew.lowerLevelIter
